@@ -51,8 +51,9 @@ Theorem C05_commit_point : forall k st, alookup "geff" (oattrs st) = None -> unr
 Proof. exact no_geff_unrecognised. Qed.
 Print Assumptions C05_commit_point.
 
-(* the commit really is the last call of write_arrays' write phase, and delete_geff un-commits after the arrays,
-   in the source as it is now (regenerated call order, see harness/translate.py) *)
+(* the commit really is the last call of write_arrays' write phase, and delete_geff un-commits FIRST (the geff attribute is
+   deleted before the node and edge groups, so that a deletion interrupted half-way -- even inside one directory removal -- leaves
+   nothing that is recognised), in the source as it is now (regenerated call order, see harness/translate.py) *)
 Fixpoint first_pos (x : string) (l : list string) : option nat :=
   match l with [] => None | y :: r => if String.eqb x y then Some 0%nat else option_map S (first_pos x r) end.
 Definition last_pos (x : string) (l : list string) : option nat :=
@@ -62,7 +63,8 @@ Theorem C05_commit_last :
   before (last_pos "write_id_arrays" write_arrays_calls) (first_pos "write" write_arrays_calls) = true /\
   before (last_pos "write_props_arrays" write_arrays_calls) (first_pos "write" write_arrays_calls) = true /\
   before (first_pos "write" write_arrays_calls) (first_pos "validate_structure" write_arrays_calls) = true /\
-  before (last_pos "del:root[_path.NODES]" delete_geff_calls) (first_pos "del:root.attrs['geff']" delete_geff_calls) = true.
+  before (last_pos "del:root.attrs['geff']" delete_geff_calls) (first_pos "del:root[_path.NODES]" delete_geff_calls) = true /\
+  before (last_pos "del:root.attrs['geff']" delete_geff_calls) (first_pos "del:root[_path.EDGES]" delete_geff_calls) = true.
 Proof. vm_compute. repeat split. Qed.
 Print Assumptions C05_commit_last.
 
